@@ -225,6 +225,7 @@ type c08job struct {
 	shard    int
 	shards   int
 	hasAsync bool
+	sel      *c08selector // a third reader whose temporality depends on the instrument kind (c08_selector_test.go)
 
 	r *enum.R
 }
@@ -255,6 +256,9 @@ func c08modeName(reuse bool) string {
 //	sync-gauge      3,3,3                3,3,3,3               3,3,3
 //	async           2,1,1                3,2,2,2               2,2,2,2
 //	mixed           2,1                  2,1,1   (2 shards)    2,1,1  (2 shards)
+//
+// The families selector / selector-onekind (a third reader with a kind-dependent temporality
+// selector over the instruments of mixed) are listed in c08_selector_test.go.
 func c08jobs(thorough bool) []*c08job {
 	var jobs []*c08job
 	add := func(j *c08job, shards int) {
@@ -333,30 +337,38 @@ func c08jobs(thorough bool) []*c08job {
 			}
 			// every instrument in one provider, reduced alphabets
 			{
-				j := &c08job{name: "mixed" + sfx, isInt: isInt, reuse: reuse,
-					insts: []c08kind{c08Counter, c08UpDown, c08Hist, c08EHist, c08Gauge, c08OCounter, c08OUpDown, c08OGauge}}
-				for _, k := range []c08kind{c08Counter, c08UpDown, c08Hist, c08EHist, c08Gauge} {
-					va, _ := c08values(k, isInt, 0)
-					j.syms = append(j.syms, c08measureSyms(k, 0, va)...)
-				}
-				for _, k := range []c08kind{c08Counter, c08EHist, c08Gauge} {
-					_, vb := c08values(k, isInt, 0)
-					j.syms = append(j.syms, c08measureSyms(k, 1, vb)...)
-				}
-				j.syms = append(j.syms, c08regSyms([]float64{2})...)
-				for _, s := range c08sigmas([]float64{1, 3}) {
-					switch s.name {
-					case "{}", "{A=1}", "{A=3,B=1}":
-						j.sigmas = append(j.sigmas, s)
-					}
-				}
+				j := c08mixedJob("mixed"+sfx, isInt, reuse)
 				b := pick(reuse, bnd{[]int{2, 1}, 1}, bnd{[]int{2, 1, 1}, 2}, bnd{[]int{2, 1, 1}, 2})
 				j.perCycle = b.per
 				add(j, b.shards)
 			}
 		}
 	}
+	// the same eight instruments read by a third reader with a kind-dependent temporality selector
+	c08selectorJobs(thorough, add)
 	return jobs
+}
+
+// c08mixedJob: all eight instruments in one meter, one value per attribute set.
+func c08mixedJob(name string, isInt, reuse bool) *c08job {
+	j := &c08job{name: name, isInt: isInt, reuse: reuse,
+		insts: []c08kind{c08Counter, c08UpDown, c08Hist, c08EHist, c08Gauge, c08OCounter, c08OUpDown, c08OGauge}}
+	for _, k := range []c08kind{c08Counter, c08UpDown, c08Hist, c08EHist, c08Gauge} {
+		va, _ := c08values(k, isInt, 0)
+		j.syms = append(j.syms, c08measureSyms(k, 0, va)...)
+	}
+	for _, k := range []c08kind{c08Counter, c08EHist, c08Gauge} {
+		_, vb := c08values(k, isInt, 0)
+		j.syms = append(j.syms, c08measureSyms(k, 1, vb)...)
+	}
+	j.syms = append(j.syms, c08regSyms([]float64{2})...)
+	for _, s := range c08sigmas([]float64{1, 3}) {
+		switch s.name {
+		case "{}", "{A=1}", "{A=3,B=1}":
+			j.sigmas = append(j.sigmas, s)
+		}
+	}
+	return j
 }
 
 // ---------------------------------------------------------------------------
@@ -905,6 +917,14 @@ type c08exec struct {
 
 	streams []*c08stream
 
+	// third reader (jobs with a kind-dependent temporality selector): its own reference
+	// bookkeeping, one stream per instrument; keyPfx / note mark the findings of its pass
+	rk       *sdk.ManualReader
+	rmK      *metricdata.ResourceMetrics
+	streamsK []*c08stream
+	keyPfx   string
+	note     string
+
 	kept []c08kept // fresh mode: every ResourceMetrics with the values read from it at collection time
 
 	failed bool
@@ -927,6 +947,9 @@ func (x *c08exec) desc() map[string]any {
 		}
 		n++
 		s := fmt.Sprintf("collect #%d (delta reader and cumulative reader)", n)
+		if x.j.sel != nil {
+			s = fmt.Sprintf("collect #%d (delta reader, cumulative reader and the reader with the kind-dependent selector)", n)
+		}
 		if x.j.hasAsync {
 			s += "; the observables' own callbacks observe " + x.j.sigmas[c.sg].name + " (obs-updown: A and B swapped; obs-updown +10, obs-gauge +20)"
 		}
@@ -940,8 +963,12 @@ func (x *c08exec) desc() map[string]any {
 	if x.j.reuse {
 		mode = "one ResourceMetrics per reader reused by every Collect, cumulative reader collected first"
 	}
-	return map[string]any{"number": c08numName(x.j.isInt), "instruments": insts, "collect_mode": mode, "history": steps,
+	out := map[string]any{"number": c08numName(x.j.isInt), "instruments": insts, "collect_mode": mode, "history": steps,
 		"attribute_sets": "A = {}, B = {k=b}, C = {k=c,n=1}"}
+	if x.j.sel != nil {
+		out["third_reader_temporality_selector"] = x.j.sel.describe()
+	}
+	return out
 }
 
 func (x *c08exec) replay() c08replay {
@@ -958,7 +985,7 @@ func (x *c08exec) replay() c08replay {
 
 func (x *c08exec) fail(key, format string, a ...any) {
 	x.failed = true
-	x.j.r.Fail(key, x.desc(), x.replay(), "collect #%d: "+format, append([]any{x.nColl}, a...)...)
+	x.j.r.Fail(x.keyPfx+key, x.desc(), x.replay(), "collect #%d: "+x.note+format, append([]any{x.nColl}, a...)...)
 }
 
 type c08noExemplars struct{}
@@ -986,12 +1013,21 @@ func (x *c08exec) setup() error {
 		}
 		return s, true
 	}
-	mp := sdk.NewMeterProvider(sdk.WithReader(x.rd), sdk.WithReader(x.rc), sdk.WithExemplarFilter(exemplar.AlwaysOffFilter), sdk.WithView(view))
+	opts := []sdk.Option{sdk.WithReader(x.rd), sdk.WithReader(x.rc), sdk.WithExemplarFilter(exemplar.AlwaysOffFilter), sdk.WithView(view)}
+	if x.j.sel != nil {
+		x.rk = sdk.NewManualReader(sdk.WithTemporalitySelector(x.j.sel.selector()))
+		// registered between the two plain readers
+		opts = []sdk.Option{sdk.WithReader(x.rd), sdk.WithReader(x.rk), sdk.WithReader(x.rc), sdk.WithExemplarFilter(exemplar.AlwaysOffFilter), sdk.WithView(view)}
+	}
+	mp := sdk.NewMeterProvider(opts...)
 	m := mp.Meter("c08")
 	x.meter = m
 	ctx := x.ctx
 	for _, k := range x.j.insts {
 		x.streams = append(x.streams, &c08stream{kind: k, sets: map[string]*c08setState{}})
+		if x.j.sel != nil {
+			x.streamsK = append(x.streamsK, &c08stream{kind: k, sets: map[string]*c08setState{}})
+		}
 		name := k.String()
 		var err error
 		switch {
@@ -1061,7 +1097,7 @@ func (x *c08exec) setup() error {
 		}
 	}
 	if x.j.reuse {
-		x.rmD, x.rmC = &metricdata.ResourceMetrics{}, &metricdata.ResourceMetrics{}
+		x.rmD, x.rmC, x.rmK = &metricdata.ResourceMetrics{}, &metricdata.ResourceMetrics{}, &metricdata.ResourceMetrics{}
 	}
 	return nil
 }
@@ -1154,11 +1190,13 @@ func (x *c08exec) run() (key string) {
 			switch s.op {
 			case c08opMeasure:
 				x.record[s.kind](s.val, c08setOpts[s.set])
-				for _, st := range x.streams {
-					if st.kind == s.kind {
-						ss := st.set(c08setNames[s.set])
-						ss.cyc = append(ss.cyc, s.val)
-						ss.lastRec, ss.recorded = s.val, true
+				for _, sts := range [][]*c08stream{x.streams, x.streamsK} {
+					for _, st := range sts {
+						if st.kind == s.kind {
+							ss := st.set(c08setNames[s.set])
+							ss.cyc = append(ss.cyc, s.val)
+							ss.lastRec, ss.recorded = s.val, true
+						}
 					}
 				}
 			case c08opReg:
@@ -1192,6 +1230,12 @@ func (x *c08exec) run() (key string) {
 	for _, st := range x.streams {
 		b = st.appendTo(b)
 	}
+	if x.streamsK != nil {
+		b = append(b, "|selector reader: "...)
+		for _, st := range x.streamsK {
+			b = st.appendTo(b)
+		}
+	}
 	return string(b)
 }
 
@@ -1224,18 +1268,25 @@ func (x *c08exec) collectOne(rd *sdk.ManualReader, reused *metricdata.ResourceMe
 
 func (x *c08exec) collect(sg *c08sigma, isLast bool) string {
 	x.sigma = sg
-	var d, c c08snap
-	var d0, d1 time.Time
+	var d, c, k c08snap
+	var d0, d1, k0, k1 time.Time
 	var ok1, ok2 bool
+	ok3 := true
 	if x.j.reuse {
+		if x.rk != nil {
+			k, k0, k1, ok3 = x.collectOne(x.rk, x.rmK, "selector")
+		}
 		c, _, _, ok2 = x.collectOne(x.rc, x.rmC, "cumulative")
 		d, d0, d1, ok1 = x.collectOne(x.rd, x.rmD, "delta")
 	} else {
 		d, d0, d1, ok1 = x.collectOne(x.rd, nil, "delta")
+		if x.rk != nil {
+			k, k0, k1, ok3 = x.collectOne(x.rk, nil, "selector")
+		}
 		c, _, _, ok2 = x.collectOne(x.rc, nil, "cumulative")
 	}
 	x.sigma = nil
-	if !ok1 || !ok2 {
+	if !ok1 || !ok2 || !ok3 {
 		return ""
 	}
 	if isLast {
@@ -1256,6 +1307,11 @@ func (x *c08exec) collect(sg *c08sigma, isLast bool) string {
 			x.fail("unknown-metric|cumulative reader", "metric %q was never created", name)
 		}
 	}
+	if x.rk != nil && !x.failed {
+		// the two plain readers agree with the reference up to here: whatever the pass of the
+		// third reader finds concerns the third reader
+		x.judgeSelector(d, c, k, sg, d0, d1, k0, k1)
+	}
 	if !isLast {
 		return "-"
 	}
@@ -1263,6 +1319,10 @@ func (x *c08exec) collect(sg *c08sigma, isLast bool) string {
 	b = d.appendTo(b)
 	b = append(b, " cumulative: "...)
 	b = c.appendTo(b)
+	if x.rk != nil {
+		b = append(b, " selector: "...)
+		b = k.appendTo(b)
+	}
 	return string(b)
 }
 
@@ -1702,6 +1762,9 @@ func TestVerifC08(t *testing.T) {
 		r.Bound("attribute_sets", c08setDesc)
 		r.Bound("expohistogram_view", "Base2ExponentialHistogram{MaxSize:4, MaxScale:20}")
 		r.Bound("collect_modes", []string{"fresh ResourceMetrics per Collect, delta reader first", "reused ResourceMetrics, cumulative reader first"})
+		if j.sel != nil {
+			r.Bound("third_reader_temporality_selector/"+j.sel.name, j.sel.describe())
+		}
 		r.Section(job)
 
 		if r.Replaying() {
